@@ -1128,10 +1128,24 @@ func (data *Data) UserPrivilege(name, database string) (*influxql.Privilege, err
 func (data *Data) Clone() *Data {
 	other := *data
 
+	other.MetaNodes = cloneNodeInfos(data.MetaNodes)
+	other.DataNodes = cloneNodeInfos(data.DataNodes)
 	other.Databases = data.CloneDatabases()
 	other.Users = data.CloneUsers()
 
 	return &other
+}
+
+// cloneNodeInfos returns a copy of a node list that shares no memory with the original.
+func cloneNodeInfos(nodes []NodeInfo) []NodeInfo {
+	if nodes == nil {
+		return nil
+	}
+	other := make([]NodeInfo, len(nodes))
+	for i := range nodes {
+		other[i] = nodes[i].clone()
+	}
+	return other
 }
 
 // marshal serializes to a protobuf representation.
@@ -1757,6 +1771,13 @@ func (rpi RetentionPolicyInfo) clone() RetentionPolicyInfo {
 		}
 	}
 
+	if rpi.Subscriptions != nil {
+		other.Subscriptions = make([]SubscriptionInfo, len(rpi.Subscriptions))
+		for i := range rpi.Subscriptions {
+			other.Subscriptions[i] = rpi.Subscriptions[i].clone()
+		}
+	}
+
 	return other
 }
 
@@ -2021,6 +2042,18 @@ type SubscriptionInfo struct {
 	Name         string
 	Mode         string
 	Destinations []string
+}
+
+// clone returns a deep copy of si.
+func (si SubscriptionInfo) clone() SubscriptionInfo {
+	other := si
+
+	if si.Destinations != nil {
+		other.Destinations = make([]string, len(si.Destinations))
+		copy(other.Destinations, si.Destinations)
+	}
+
+	return other
 }
 
 // marshal serializes to a protobuf representation.
